@@ -5,6 +5,7 @@
 #include "tracked.h"
 #include <deque>
 #include <memory>
+#include <new>
 #include <string>
 #include <type_traits>
 #include <vector>
@@ -560,3 +561,142 @@ static void cyca_run(uint64_t idx)
 }
 VF_SUITE(cyclic_alias, cyca_count, cyca_run)
 
+
+// ============================================================================================
+// 7. unwritten slots: the containers value-construct every slot (T{}), so a slot that was never written reads as T{}
+//    even when the storage is recycled, dirty memory. The containers take an allocator parameter: DirtyAlloc hands out
+//    exactly sized heap blocks pre-filled with 0xCD (a zero-filling allocator or a fresh mmap page would hide the
+//    difference between "constructed" and "left as found").
+// ============================================================================================
+template <class T> struct DirtyAlloc
+{
+    using value_type = T;
+    DirtyAlloc() = default;
+    template <class U> DirtyAlloc(const DirtyAlloc<U> &) {}
+    T *allocate(size_t n)
+    {
+        size_t bytes = n * sizeof(T);
+        void *p = ::operator new(bytes ? bytes : 1, std::align_val_t(alignof(T) > 16 ? alignof(T) : 16));
+        memset(p, 0xCD, bytes);
+        return (T *)p;
+    }
+    void deallocate(T *p, size_t) { ::operator delete((void *)p, std::align_val_t(alignof(T) > 16 ? alignof(T) : 16)); }
+    template <class U> bool operator==(const DirtyAlloc<U> &) const { return true; }
+    template <class U> bool operator!=(const DirtyAlloc<U> &) const { return false; }
+};
+struct Pod12
+{
+    uint32_t a;
+    float f;
+    uint8_t c;
+    bool operator==(const Pod12 &o) const { return a == o.a && f == o.f && c == o.c; }
+};
+template <class T> static T uw_make(uint32_t id);
+template <> uint32_t uw_make<uint32_t>(uint32_t id) { return id * 2654435761u | 1; }
+template <> double uw_make<double>(uint32_t id) { return 1.5 + id; }
+template <> Pod12 uw_make<Pod12>(uint32_t id) { return Pod12{id | 0x100, 2.5f + id, (uint8_t)(id | 1)}; }
+
+template <class T> static void unwritten_case(int n, const char *tname)
+{
+    char cls[64];
+    snprintf(cls, sizeof cls, "unwritten-slots:%s", tname);
+    vf::cls(cls);
+    const T zero{};
+    auto is_zero = [&](const T &v) { return v == zero; };
+    // unbounded_array: sized constructor and resize
+    {
+        igris::unbounded_array<T, DirtyAlloc<T>> arr(n);
+        for (int i = 0; i < n; i++)
+            if (!is_zero(arr[i]))
+                vf::fail("unbounded_array:element-not-value-initialised", "%s: unbounded_array(%d): element %d is not T{} (storage was left as the allocator returned it)", tname, n, i);
+        for (int i = 0; i < n; i++)
+            arr[i] = uw_make<T>(i);
+        arr.resize(n);
+        for (int i = 0; i < n; i++)
+            if (!is_zero(arr[i]))
+                vf::fail("unbounded_array:element-not-value-initialised", "%s: after resize(%d): element %d is not T{}", tname, n, i);
+        VF_OK("unwritten slots: unbounded_array(n) / resize(n) value-initialise every element");
+    }
+    // cyclic_buffer: constructed and resized-after-use
+    for (int via_resize = 0; via_resize < 2; via_resize++)
+    {
+        igris::cyclic_buffer<T, DirtyAlloc<T>> cb(via_resize ? n + 1 : n);
+        if (via_resize)
+        {
+            for (int i = 0; i < n + 2; i++)
+                cb.push(uw_make<T>(50 + i));
+            cb.resize(n);
+        }
+        const char *how = via_resize ? "after resize" : "constructed";
+        for (int i = 0; i < n; i++)
+            if (!is_zero(cb[i]))
+                vf::fail("cyclic_buffer:unwritten-slot", "%s cyclic_buffer(%d) %s, no push yet: [%d] is not T{}", tname, n, how, i);
+        for (int k = 0; k < n; k++) // first lap
+        {
+            T ret = cb.push(uw_make<T>(k));
+            if (!is_zero(ret))
+                vf::fail("cyclic_buffer:push:first-lap-evicts-unwritten", "%s cyclic_buffer(%d) %s: push #%d of the first lap returned a value that is not T{}", tname, n, how, k);
+            for (int i = 0; i < n; i++)
+            {
+                T got = cb[i];
+                bool ok = i <= k ? got == uw_make<T>(k - i) : is_zero(got);
+                if (!ok)
+                    vf::fail(i <= k ? "cyclic_buffer:index" : "cyclic_buffer:unwritten-slot", "%s cyclic_buffer(%d) %s after %d pushes: [%d] is wrong (%s)", tname, n, how, k + 1, i,
+                             i <= k ? "written sample" : "never written, must be T{}");
+            }
+        }
+        VF_OK("unwritten slots: cyclic_buffer first lap evicts T{}, [i] beyond the pushes is T{}");
+    }
+    // igris::ring: constructed and resized-after-use
+    for (int via_resize = 0; via_resize < 2; via_resize++)
+    {
+        igris::ring<T, DirtyAlloc<T>> rg = via_resize ? igris::ring<T, DirtyAlloc<T>>(n + 1) : igris::ring<T, DirtyAlloc<T>>(n);
+        if (via_resize)
+        {
+            for (int i = 0; i < n; i++)
+                rg.push(uw_make<T>(70 + i));
+            rg.resize(n);
+        }
+        const char *how = via_resize ? "after resize" : "constructed";
+        for (int i = 0; i <= n; i++)
+            if (!is_zero(rg.get(i)))
+                vf::fail("ring<T>:unwritten-slot", "%s ring(%d) %s: slot %d is not T{}", tname, n, how, i);
+        for (int k = 1; k <= n; k++)
+        {
+            rg.push(uw_make<T>(k));
+            // windows reaching past the written part: the k newest are data, the rest never-written slots
+            for (int cnt = 1; cnt <= n + 1; cnt++)
+                for (int from_end = 0; from_end < 2; from_end++)
+                {
+                    std::vector<T> v = rg.get_last(0, cnt, from_end);
+                    for (int i = 0; i < cnt; i++)
+                    {
+                        int back = from_end ? i : cnt - 1 - i; // how many elements before the newest
+                        bool ok = back < k ? v[i] == uw_make<T>(k - back) : is_zero(v[i]);
+                        if (!ok)
+                            vf::fail(back < k ? "ring<T>:get_last" : "ring<T>:unwritten-slot", "%s ring(%d) %s after %d pushes: get_last(0,%d,%d)[%d] is wrong (%s)", tname, n, how, k,
+                                     cnt, from_end, i, back < k ? "written element" : "never written, must be T{}");
+                    }
+                }
+        }
+        VF_OK("unwritten slots: igris::ring slots and get_last past the written part are T{}");
+    }
+}
+static uint64_t uw_count() { return 3ull * 10; }
+static void uw_run(uint64_t idx)
+{
+    int n = 1 + (int)(idx / 3);
+    switch (idx % 3)
+    {
+    case 0:
+        unwritten_case<uint32_t>(n, "uint32_t");
+        break;
+    case 1:
+        unwritten_case<double>(n, "double");
+        break;
+    default:
+        unwritten_case<Pod12>(n, "Pod12");
+    }
+    vf::count_case(vf::mix(0x77, idx), true);
+}
+VF_SUITE(unwritten_slots, uw_count, uw_run)
